@@ -737,6 +737,17 @@ class _GlobOrder:
         return False
 
 
+def _new_work_dir() -> str:
+    """scratch.new_dir, tolerant of a stale directory of the same name (left by a killed worker whose pid this process
+    got: the scratch root is named after the pid and its counter restarts at 1)"""
+    for _ in range(1000):
+        try:
+            return scratch.new_dir('suite')
+        except FileExistsError:
+            continue
+    raise RuntimeError('harness error: no free scratch directory')
+
+
 def run_main_program_on_suite(tree: Tree, root: str, junit: bool, kind_of_rel: Optional[Callable[[str], int]],
                               glob_rot: int = 0, glob_rev: bool = False, via_dir_arg: bool = False) -> Observed:
     """Writes `tree` into a fresh scratch directory and runs the REAL MainProgram.execute(['suite', ...]).
@@ -747,7 +758,7 @@ def run_main_program_on_suite(tree: Tree, root: str, junit: bool, kind_of_rel: O
     from exactly_lib.util.file_utils.std import StdOutputFiles
     install_clock()
     real_tempfile = preprocessor.tempfile
-    work = scratch.new_dir('suite')
+    work = _new_work_dir()
     work_real = os.path.realpath(work)
     tree.write(work)
     log = []
